@@ -537,7 +537,7 @@ def replay_c11(case, doc, obs):
         prefix = p.get("prefix", "<!--")
         ident = p.get("ident", "md013")
         # a document with pragma at line pl and a too-long line / missing final newline at line l
-        long = "x" * 100
+        long = ("xy " * 34).strip()
         lines = ["ok"] * 16
         lines[pl - 1] = f"{prefix} pyml {p['command']} {digits}{' ' if digits else ''}{ident}-->"
         if l - 1 == pl - 1:
